@@ -22,6 +22,7 @@ SameOutput(a, b) ==
 
 Judge(ln) ==
   CASE ln.ev = "race" -> {"C16_NoRace"}
+    [] ln.ev = "abort" -> {"C16_NoAbort"}
     [] ln.ev = "isolation" -> (IF ln.msg = "" /\ SameOutput(ln.solo, ln.conc) THEN {} ELSE {"C16_Isolation"})
     [] OTHER -> {}
 
